@@ -138,7 +138,7 @@ def extract_params():
     else:
         c["CloseOrder"] = "flag_then_wake" if i_flag < i_cw else "wake_then_flag"
     # poll_signal: close() between the loop-top check and poll_pending's check
-    out = os.path.join(WORK, "it_extract_recheck")
+    out = os.path.join(WORK, "it_extract_recheck_%d" % os.getpid())
     harness("iterator", "--consumer", "b1", "--others", "c", "--replay", "s0 s0 s1 s1 s1 s0 s0 s0 s0",
             "--out", out)
     evs = [json.loads(l) for l in open(out + ".abs.ndjson") if l.strip()]
